@@ -5,7 +5,8 @@
    (libprotobuf, harness/cxx/ref_driver.cc): byte-identical serialisation and identical parse result. *)
 From Coq Require Import ZArith List Bool.
 From PBC Require Import Base.CInt Spec.Wire Impl.Desc Impl.Mem Impl.Enc Impl.Pack Impl.WF Impl.Canon Impl.Denote Spec.WireMsg Proofs.SpecEnc Proofs.Examples.
-From PBC Require Proofs.WholeMsg.
+From PBC Require Import Impl.Unpack Impl.SpecParse.
+From PBC Require Proofs.WholeMsg Proofs.SpecCanon4.
 Import ListNotations.
 Local Open Scope Z_scope.
 
@@ -100,3 +101,14 @@ Proof.
   split; [exact Hl|]. exact (WholeMsg.pack_reads_as_records ex_env ex_msg b ex_env_ok ex_canon Hp Hl).
 Qed.
 Print Assumptions C03_whole_message_nonvacuous.
+
+(* THE SAME MEANING, as a value: the specification-level reading (Impl/SpecParse.v: reference reader, then one fold over the
+   records with the primitives of Spec/Wire.v -- no C decoder involved) of the bytes protobuf_c_message_pack writes for a
+   canonical message IS that message.  (unk_strict: no retained unknown field holds a varint that overflows 64 bits; the
+   specification refuses those.) *)
+Theorem C03_specification_reads_packed_bytes_as_the_original_message : forall (E : env) (m : msg) (b : list Z),
+  env_ok E = true -> canon_msg E m = true -> unk_strict m = true ->
+  pack_msg E m = Ok b -> zlen b <= 268435425 ->
+  spec_parse_top E (m_desc m) b = Some m.
+Proof. exact SpecCanon4.spec_reads_canonical. Qed.
+Print Assumptions C03_specification_reads_packed_bytes_as_the_original_message.
